@@ -197,8 +197,9 @@ EncResultText(r, offers) ==
 
 (***************************************************************************)
 (* 3. Syntax.                                                              *)
-(* Structured header: a sequence of lines, a line a non-empty sequence of  *)
-(* ranges  [t, s, hasq, q, pb, pa, ...spelling]:                           *)
+(* Structured header: a sequence of lines, a line a sequence of ranges     *)
+(* (a line without ranges - empty or white space only - contributes        *)
+(* nothing)  [t, s, hasq, q, pb, pa, ...spelling]:                         *)
 (*   t, s   token bytes; s = <<>> means the value is the single token t    *)
 (*          (Accept-Encoding codings, the bare "*" some clients send)      *)
 (*   hasq   a q parameter is present; q its value                          *)
@@ -310,7 +311,8 @@ RenderRange(r) ==
 
 RECURSIVE RenderLine(_)
 RenderLine(rs) ==
-  IF Len(rs) = 1 THEN RenderRange(rs[1])
+  IF rs = <<>> THEN <<>>                       \* a header line without ranges (an empty field value)
+  ELSE IF Len(rs) = 1 THEN RenderRange(rs[1])
   ELSE RenderRange(rs[1]) \o rs[1].ws \o <<COMMA>> \o rs[1].ws \o RenderLine(Tail(rs))
 
 RenderHeader(lines) == [k \in DOMAIN lines |-> RenderLine(lines[k])]
